@@ -170,6 +170,9 @@ func TestC06_Isolation(t *testing.T) {
 		}
 		kase := &c06case{Config: cfg, Witnesses: wits, Victims: vics}
 		f := runC06(cfg, wits, vics)
+		if f.key == "infra" {
+			ev.InfraSkip(rt, c06, "%s", f.msg)
+		}
 		if f.key != "" {
 			kase.Failure = f.msg
 			ev.Violation(rt, c06, f.key, kase, "%s", f.msg)
@@ -211,7 +214,7 @@ func runC06(cfg netConfig, wits []*chanScript, vics []*victim) (f failure) {
 		}
 		conn, st := mpx.Connect(ctxNone(), srv.Addr, log, cfg.options())
 		if !st.OK() {
-			f = failure{"connect-failed", fmt.Sprintf("Connect: %v", st)}
+			f = failure{"infra", fmt.Sprintf("Connect: %v", st)}
 			return
 		}
 		defer conn.Close()
@@ -519,7 +522,7 @@ func TestC06_EndUnderStream(t *testing.T) {
 				}
 				conn, st := mpx.Connect(ctxNone(), srv.Addr, log, cfg.options())
 				if !st.OK() {
-					setf("connect-failed", fmt.Sprintf("Connect: %v", st))
+					setf("infra", fmt.Sprintf("Connect: %v", st))
 					return
 				}
 				defer conn.Close()
@@ -570,6 +573,9 @@ func TestC06_EndUnderStream(t *testing.T) {
 				setf("witness-or-victim-error", e)
 			}
 		})
+		if f.key == "infra" {
+			ev.InfraSkip(rt, c06, "%s", f.msg)
+		}
 		if f.key != "" {
 			kase["failure"] = f.msg
 			ev.Violation(rt, c06, f.key, kase, "%s", f.msg)
